@@ -54,6 +54,7 @@ type predCase struct {
 	Leaves []Leaf `json:"leaves"`
 	Tree   *Pred  `json:"tree,omitempty"` // nil: single leaf 0
 	Path   string `json:"path"`
+	Repeat int    `json:"repeat,omitempty"` // >1: asked that many times in a row, every answer judged
 }
 
 type witness struct {
@@ -266,6 +267,7 @@ func (r *runner) step(op *Op) error {
 		r.checkListings(op.Label)
 		if op.NPred > 0 {
 			r.predicatePhase(r.c.Rand(uint64(500000+r.h.ID*1000+r.opIdx)), op.NPred, op.Label)
+			r.anchoredAndPhase(r.c.Rand(uint64(900000+r.h.ID*1000+r.opIdx)), max(3, op.NPred/12), op.Label)
 		}
 	default:
 		return fmt.Errorf("unknown op %q", op.Kind)
@@ -738,6 +740,11 @@ func (r *runner) predicatePhase(rng *rand.Rand, n int, when string) {
 				tree = &Pred{Kind: pick(rng, []string{"and", "or"}), L: tree, R: &Pred{Kind: "leaf", Leaf: rng.IntN(nLeaves)}}
 			}
 			want, pc, showAgrees := r.checkTree(vc, leaves, obs, tree, when)
+			// an OR-free AND is answered from remembered filter costs the second time:
+			// every other one is asked again, each answer judged
+			if isPureAnd(tree) && t%2 == 0 && showAgrees {
+				r.askRepeated(vc, leaves, tree, "select", 2, when)
+			}
 			if t%5 == 0 && showAgrees {
 				r.checkCondListing(v, tree, leaves, want, pc)
 			}
@@ -1000,6 +1007,10 @@ func (r *runner) replayPred(pc *predCase) {
 			continue
 		}
 		vc := r.newViewCtx(v)
+		if pc.Repeat > 1 && pc.Tree != nil {
+			r.askRepeated(vc, pc.Leaves, pc.Tree, pc.Path, pc.Repeat, "replay")
+			return
+		}
 		obs := make([]leafObs, len(pc.Leaves))
 		for i := range pc.Leaves {
 			obs[i] = r.checkLeaf(vc, pc.Leaves, i, "replay")
@@ -1010,4 +1021,82 @@ func (r *runner) replayPred(pc *predCase) {
 		return
 	}
 	fmt.Printf("REPLAY: measurement %q has no live series at this point\n", pc.M)
+}
+
+// ---------------------------------------------------------------- repeated evaluation
+
+// askRepeated asks the same condition n times in a row on one search path with no cache
+// operation in between and judges EVERY answer against brute force: the index plans an
+// AND of tag filters from what earlier evaluations cost, so a later answer can come from
+// other code than the first. Only the first answer may be re-asked after a cache drop
+// (visibility rule of the filter cache); nothing was written between the evaluations, so
+// a later answer that differs is a verdict. For the PromQL flavour regexps are judged as
+// ^(?:pattern)$.
+func (r *runner) askRepeated(vc *viewCtx, leaves []Leaf, tree *Pred, path string, n int, when string) {
+	c, v := r.c, vc.v
+	if path == "prom" && vc.tagless {
+		return
+	}
+	sets := make([]bitset, len(leaves))
+	for i := range leaves {
+		l := leaves[i]
+		if path == "prom" && l.IsRegex() {
+			l.Val = "^(?:" + l.Val + ")$"
+		}
+		sets[i] = evalLeaf(r.sh.u, v, &l)
+	}
+	want := evalTree(tree, sets)
+	pc := &predCase{M: v.M, Leaves: leaves, Tree: tree, Path: path, Repeat: n}
+	c.LogInput(map[string]any{"history": r.h.ID, "m": v.M, "pred": pc})
+	if want.count() > 0 && want.count() < len(v.Series) {
+		c.Nontrivial("repeat:" + hashOf(fmt.Sprint(r.h.ID, v.M, path, render(tree, leaves, func(i int) string { return renderLeaf(&leaves[i]) }))))
+	}
+	for k := 1; k <= n; k++ {
+		var res idsResult
+		var text string
+		if k == 1 {
+			res, text, _ = r.query(v, vc.pos, path, tree, leaves, want)
+		} else {
+			res, text, _ = r.queryOnce(v, vc.pos, path, tree, leaves)
+		}
+		c.Eval(1)
+		c.Count(fmt.Sprintf("repeated-and-%s-evaluation#%d", path, k), 1)
+		ok := res.err == nil && len(res.junk) == 0 && !res.dup && res.retired == 0 && res.set.eq(want)
+		if ok {
+			if r.replay != nil {
+				fmt.Printf("REPLAY: %s WHERE %s on %q, evaluation #%d agrees with brute force (%d series)\n", path, text, v.M, k, want.count())
+			}
+			continue
+		}
+		sig := fmt.Sprintf("repeated-and:%s:evaluation#1-differs-from-brute-force", path)
+		if k > 1 {
+			sig = fmt.Sprintf("repeated-and:%s:evaluation#%d-differs-from-evaluation#1:%s", path, k, diffKind(want, res.set))
+		}
+		r.violation(sig, fmt.Sprintf("%s WHERE %s on %q %s: evaluation #%d of %d in a row gives %d series (err %v), brute force %d",
+			path, text, v.M, when, k, n, res.set.count(), res.err, want.count()), pc,
+			map[string]any{"query": text, "evaluation": k, "expected": r.describe(v, want, 12), "got": r.describe(v, res.set, 12)})
+		return
+	}
+}
+
+// anchoredAndPhase: pure ANDs with a regexp that starts with an anchored literal, over
+// the measurement laid out for pruning, three evaluations in a row on the SELECT path and
+// on its PromQL flavour.
+func (r *runner) anchoredAndPhase(rng *rand.Rand, n int, when string) {
+	if r.h.PruneM == "" {
+		return
+	}
+	for _, v := range r.liveViews() {
+		if v.M != r.h.PruneM {
+			continue
+		}
+		vc := r.newViewCtx(v)
+		for i := 0; i < n; i++ {
+			leaves, tree := genAnchoredAnd(rng, v, false)
+			r.askRepeated(vc, leaves, tree, "select", 3, when)
+			dist(r.c, "anchored-and-patterns", leaves[1].Op+" /"+leaves[1].Val+"/")
+			leaves, tree = genAnchoredAnd(rng, v, true)
+			r.askRepeated(vc, leaves, tree, "prom", 3, when)
+		}
+	}
 }
